@@ -652,3 +652,83 @@ Section Proofs.
   Qed.
 
 End Proofs.
+
+(* ========== 10. Non-vacuity: a concrete history satisfying the hypotheses ========== *)
+
+(* file 2 matches no address; any other file f stands for address f / 10 *)
+Definition ex_addr_of (f : fid) : option addr :=
+  if N.eqb f 2 then None else Some (f / 10)%N.
+
+(* one initial listener (100); file 10 is discovered by an fs event and delivered; then listener
+   101 is added *)
+Definition ex_ops1 : list op :=
+  [CreateFile 10%N; FsEvent 10%N; NotifierSend 0; AddListener 101%N].
+
+(* file 11 (same address 1 as file 10), the non-matching file 2 and file 30 (address 3) appear *)
+Definition ex_creates : list op := [CreateFile 11%N; CreateFile 2%N; CreateFile 30%N].
+
+Definition ex_listing : list fid := [30%N; 11%N; 2%N; 10%N].
+
+(* after the Refresh: an fs event for file 11, all sends performed, GetAccounts *)
+Definition ex_after : list op :=
+  [FsEvent 11%N; NotifierSend 1; NotifierSend 1; GetAccounts].
+
+Definition ex_ops2 : list op := ex_creates ++ Refresh ex_listing :: ex_after.
+
+Definition ex_final : state := run ex_addr_of (init [100%N]) (ex_ops1 ++ ex_ops2).
+
+Ltac ex_solve := cbv; intuition (try discriminate; subst; auto 10).
+
+Example ex_valid : valid_seq ex_addr_of (init [100%N]) (ex_ops1 ++ ex_ops2).
+Proof. ex_solve. Qed.
+
+Example ex_quiescent : quiescent ex_final.
+Proof. reflexivity. Qed.
+
+Example ex_addrList : addrList ex_final = [1%N; 3%N].
+Proof. reflexivity. Qed.
+
+Example ex_log : log ex_final = [(100%N, 1%N); (100%N, 3%N); (101%N, 3%N)].
+Proof. reflexivity. Qed.
+
+Example ex_files : files ex_final = [10%N; 11%N; 2%N; 30%N].
+Proof. reflexivity. Qed.
+
+Example ex_file_addrs : file_addrs ex_addr_of (files ex_final) = [1%N; 1%N; 3%N].
+Proof. reflexivity. Qed.
+
+(* hypotheses of [exactly_once] hold for the later listener 101 and the later address 3 *)
+Example ex_exactly_once_hyps :
+  NoDup [100%N] /\
+  In 101%N (listeners (run ex_addr_of (init [100%N]) ex_ops1)) /\
+  ~ In 3%N (addrList (run ex_addr_of (init [100%N]) ex_ops1)) /\
+  In 3%N (addrList ex_final).
+Proof. split; [repeat constructor; intros []|]. ex_solve. Qed.
+
+Example ex_exactly_once : count_occ pair_dec (log ex_final) (101%N, 3%N) = 1.
+Proof.
+  destruct ex_exactly_once_hyps as [H1 [H2 [H3 H4]]].
+  exact (exactly_once ex_addr_of [100%N] ex_ops1 ex_ops2 101%N 3%N
+           H1 ex_valid H2 H3 H4 ex_quiescent).
+Qed.
+
+(* listener 101 was added after address 1 was known: never notified of it *)
+Example ex_not_older : ~ In (101%N, 1%N) (log ex_final ++ pending ex_final).
+Proof. ex_solve. Qed.
+
+(* hypotheses of [converges] hold for the Refresh of the example *)
+Example ex_converges_hyps :
+  incl (files (run ex_addr_of (init [100%N]) (ex_ops1 ++ ex_creates))) ex_listing /\
+  (forall f, ~ In (CreateFile f) ex_after).
+Proof. ex_solve. Qed.
+
+Example ex_converges : forall a,
+  In a (addrList ex_final) <-> In a (file_addrs ex_addr_of (files ex_final)).
+Proof.
+  destruct ex_converges_hyps as [H1 H2].
+  assert (E : ex_ops1 ++ ex_ops2 = (ex_ops1 ++ ex_creates) ++ Refresh ex_listing :: ex_after)
+    by reflexivity.
+  unfold ex_final. rewrite E.
+  apply (converges ex_addr_of [100%N] (ex_ops1 ++ ex_creates) ex_listing ex_after); [|exact H1|exact H2].
+  rewrite <- E. exact ex_valid.
+Qed.
